@@ -616,6 +616,13 @@ theorem cacheGetPage_runs (cfg : Cfg) (pol : Policy) (key pfn : Nat) (pg : PageI
       simpa using this
   · exact Runs.nil L
 
+theorem diskdumpGetPage_runs (cfg : Cfg) (pol : Policy) (key pfn : Nat) (pg : PageInfo) (orc : List Ext) (L : List Res) :
+    Runs (diskdumpGetPage cfg pol key pfn pg orc).evs L (gainPage key (diskdumpGetPage cfg pol key pfn pg orc).res ++ L) := by
+  unfold diskdumpGetPage
+  split
+  · exact Runs.nil L
+  · exact cacheGetPage_runs cfg pol key pfn pg orc L
+
 theorem readLocked_runs (cfg : Cfg) (pages : Nat → PageInfo) (as fuel : Nat) (pol : Policy) (addr remain : Nat)
     (orc : List Ext) (L : List Res) :
     Runs (readLocked cfg pages as fuel pol addr remain orc).evs L L := by
@@ -628,9 +635,9 @@ theorem readLocked_runs (cfg : Cfg) (pages : Nat → PageInfo) (as fuel : Nat) (
     split
     · exact Runs.nil L
     · simp only
-      have hg := cacheGetPage_runs cfg pol ((addr - addr % cfg.ps) ||| as) ((addr - addr % cfg.ps) / cfg.ps)
+      have hg := diskdumpGetPage_runs cfg pol ((addr - addr % cfg.ps) ||| as) ((addr - addr % cfg.ps) / cfg.ps)
         (pages ((addr - addr % cfg.ps) / cfg.ps)) orc L
-      rcases hout : cacheGetPage cfg pol ((addr - addr % cfg.ps) ||| as) ((addr - addr % cfg.ps) / cfg.ps)
+      rcases hout : diskdumpGetPage cfg pol ((addr - addr % cfg.ps) ||| as) ((addr - addr % cfg.ps) / cfg.ps)
         (pages ((addr - addr % cfg.ps) / cfg.ps)) orc with ⟨res, e, o⟩
       rw [hout] at hg
       cases res with
@@ -666,9 +673,9 @@ theorem addrxlatGetPage_runs (cfg : Cfg) (pol : Policy) (as addr : Nat) (pages :
   · exact Runs.neutral (by simp [Neutral]) L
   · rename_i o
     simp only
-    have hg := cacheGetPage_runs cfg pol ((addr - addr % cfg.ps) ||| as) ((addr - addr % cfg.ps) / cfg.ps)
+    have hg := diskdumpGetPage_runs cfg pol ((addr - addr % cfg.ps) ||| as) ((addr - addr % cfg.ps) / cfg.ps)
       (pages ((addr - addr % cfg.ps) / cfg.ps)) o (Res.mem .pio cfg.pioSize :: L)
-    rcases hout : cacheGetPage cfg pol ((addr - addr % cfg.ps) ||| as) ((addr - addr % cfg.ps) / cfg.ps)
+    rcases hout : diskdumpGetPage cfg pol ((addr - addr % cfg.ps) ||| as) ((addr - addr % cfg.ps) / cfg.ps)
       (pages ((addr - addr % cfg.ps) / cfg.ps)) o with ⟨res, e, o2⟩
     rw [hout] at hg
     cases res with
